@@ -184,7 +184,7 @@ def cases(draw: Any, tier: str) -> Dict[str, Any]:
             else:
                 vals.append(prog.enc(draw(st.sampled_from([0, 1, "w", None]))))
         return {"family": "nest-composed", "prog": P, "inputs": ins, "outputs": outs, "vals": vals, "mc": draw(st.integers(1, 3))}
-    c = draw(richgen.rich_case(depth=3, max_stmts=6, flag_w=6, sub_w=8))
+    c = draw(richgen.rich_case(depth=3, max_stmts=6, flag_w=6, sub_w=8, seqop_w=1))
     c["configs"] = draw(pc.configs(2, sites=prog.sites_of(c["prog"])))
     return c
 
